@@ -3,16 +3,25 @@
 // TLA+ trace specifications under /verif/spec/trace validate.
 mod api;
 mod util;
+mod msgfmt;
 mod apitrace;
+#[cfg(feature = "hooks")]
 mod codec;
+#[cfg(feature = "hooks")]
 mod fcases;
+#[cfg(feature = "hooks")]
 mod hostile;
+#[cfg(feature = "hooks")]
 mod refmath;
+#[cfg(feature = "hooks")]
 mod ring;
+#[cfg(feature = "hooks")]
 mod scalar;
+#[cfg(feature = "hooks")]
 mod sweeps;
 
 use util::Args;
+#[cfg(feature = "hooks")]
 pub use codec::patch_field as codec_patch_field;
 
 fn main() {
@@ -20,17 +29,37 @@ fn main() {
     let a: Vec<String> = std::env::args().collect();
     if a.len() < 2 { eprintln!("usage: drive <subcommand> key=value ..."); std::process::exit(2); }
     let args = Args::parse(&a[2..]);
-    match a[1].as_str() {
-        "keygen" | "sign" | "verify" | "replayf" => fcases::run(a[1].as_str(), &args),
-        "scalar" => scalar::run(&args),
-        "ring" => ring::run(&args),
-        "codec" | "skfields" => codec::run(a[1].as_str(), &args),
-        "hostile" => hostile::run(&args),
-        "sweeps" => sweeps::run(&args),
-        "cthash" => cthash(&args),
-        "t0probe" => t0probe(&args),
-        "ctskel" => ctskel(&args),
-        "api" => apitrace::run(&args),
+    // A panic of the library under test that escapes a call the harness did not wrap is still an observation of the
+    // library, not a tool failure: report it (exit 3) so that the driver turns it into a violation with a replay.
+    let sub = a[1].clone();
+    let r = util::guarded(|| dispatch(&sub, &a, &args));
+    if let Err((loc, msg)) = r {
+        if loc.contains("/harness/src/") || loc.is_empty() { eprintln!("harness panic at {}: {}", loc, msg); std::process::exit(101); }
+        println!("UNGUARDED-LIBRARY-PANIC {} | {}", loc, msg);
+        std::process::exit(3);
+    }
+}
+
+fn dispatch(sub: &str, a: &[String], args: &Args) {
+    match sub {
+        #[cfg(feature = "hooks")]
+        "keygen" | "sign" | "verify" | "replayf" => fcases::run(a[1].as_str(), args),
+        #[cfg(feature = "hooks")]
+        "scalar" => scalar::run(args),
+        #[cfg(feature = "hooks")]
+        "ring" => ring::run(args),
+        #[cfg(feature = "hooks")]
+        "codec" | "skfields" => codec::run(a[1].as_str(), args),
+        #[cfg(feature = "hooks")]
+        "hostile" => hostile::run(args),
+        #[cfg(feature = "hooks")]
+        "sweeps" => sweeps::run(args),
+        "cthash" => cthash(args),
+        #[cfg(feature = "hooks")]
+        "t0probe" => t0probe(args),
+        #[cfg(feature = "hooks")]
+        "ctskel" => ctskel(args),
+        "api" => apitrace::run(args),
         other => { eprintln!("unknown subcommand {}", other); std::process::exit(2); }
     }
 }
@@ -84,6 +113,7 @@ fn cthash(a: &Args) {
     println!("{}", serde_json::json!({"nlines": n, "blocks": blocks, "first_i": first_i, "skipped": skipped}));
 }
 
+#[cfg(feature = "hooks")]
 /// C14 skeleton: number of rejection-loop attempts of the CTEST entry point for random RNG outputs
 fn ctskel(a: &Args) {
     use api::MlDsa;
@@ -102,6 +132,7 @@ fn ctskel(a: &Args) {
     one::<api::Set44>(seed, n); one::<api::Set65>(seed, n); one::<api::Set87>(seed, n);
 }
 
+#[cfg(feature = "hooks")]
 /// experiment: how many rejection-loop attempts do accepted private keys with adversarial t0 sections need?
 fn t0probe(a: &Args) {
     use api::MlDsa;
